@@ -4,7 +4,7 @@
 //! is only reported, the property text does not pin it).
 
 use super::world::*;
-use super::{Fail, K1, K2, K3, K4, K5, K6, K8, K9, fail, h};
+use super::{Fail, K1, K10, K2, K3, K4, K5, K6, K8, K9, fail, h};
 use crate::common::*;
 use anda_cognitive_nexus::ElementId;
 use anda_cognitive_nexus::governance::rows::{AuthorityConstraints, AuthorityScope};
@@ -16,7 +16,7 @@ use vf_core::CaseCtx;
 use super::model::Grantee;
 
 pub fn cases() -> Vec<u8> {
-    vec![1, 2, 3, 4, 5, 6, 7, 9]
+    vec![1, 2, 3, 4, 5, 6, 7, 9, 10]
 }
 
 const READER: &str = "kip:principal:reader";
@@ -211,6 +211,36 @@ pub fn run(case: &u8, ctx: &mut CaseCtx) -> Result<(), Fail> {
             if after.0 == "NotAuthorized" && after.1 != "NotAuthorized" {
                 ctx.nontrivial = true;
                 return fail(K9, format!("`{q}`: before the policy deny of `read` naming the delegator p0 -> p0 {}, delegate p1 {}; after it -> p0 {}, delegate p1 {} (p1's only authority is the delegation from p0)", before.0, before.1, after.0, after.1));
+            }
+            Ok(())
+        }
+        10 => {
+            // a writer (read / create / update up to `internal`) ensures a tuple whose proposition
+            // exists but is classified out of its reach
+            let env = Env::new("c19").map_err(|e| Fail { sig: "c19:script-refused-or-malformed-answer".into(), msg: e })?;
+            let w = World { env, id_of: Default::default(), label_of: Default::default(), grant_rows: vec![], deleg_rows: vec![], txs: 0 };
+            h(register_principal(&w, &principal_id(0)))?;
+            let b = h(w.env.exec_ok(r#"MUTATE { CREATE CONCEPT ?a { TYPE "Person" NAME "alice" } CREATE CONCEPT ?b { TYPE "Person" NAME "bob" } ENSURE PROPOSITION ?p (?a, "links", ?b) }"#, Json::Null))?;
+            let (a, bb, pid) = (h(handle(&b, "a"))?, h(handle(&b, "b"))?, h(handle(&b, "p"))?);
+            h(classify(&w.env, &pid, "secret"))?;
+            h(create_grant_raw(
+                &w,
+                &Grantee::Principal(0),
+                ["read", "search", "create", "update", "assert", "record_attributed_assertion"].iter().map(|s| s.to_string()).collect(),
+                AuthorityScope::default(),
+                Default::default(),
+                AuthorityConstraints { max_classification: "internal".into(), export: true, ..Default::default() },
+                false,
+            ))?;
+            let params = json!({"s": {"id": a}, "o": {"id": bb}});
+            let seen = w.env.run(exec(&w.session(0), r#"FIND(?p.id) WHERE { ?p PROPOSITION (:s, "links", :o) }"#, params.clone()));
+            let seen = body_of(&seen).unwrap_or(Json::Null);
+            let r = w.env.run(exec(&w.session(0), r#"ENSURE PROPOSITION ?n (:s, "links", :o)"#, params));
+            let status = r.receipt.as_ref().map(|x| format!("{:?}", x.status)).unwrap_or_default();
+            let bound = body_of(&r).ok().and_then(|b| b["handles"]["n"].as_str().map(|s| s.to_string()));
+            if seen == json!([]) && bound.as_deref() == Some(pid.as_str()) {
+                ctx.nontrivial = true;
+                return fail(K10, format!("the writer p0 cannot read the proposition {pid} (FIND over its tuple answers []); ENSURE PROPOSITION ?n over the same tuple answers receipt status {status} with ?n bound to {pid}"));
             }
             Ok(())
         }
